@@ -32,10 +32,11 @@ def all_rates(alpha, n):
 
 def cases(tier, seed):
     rates = all_rates(ALPHA3, 4)
+    sub = [i for i, r in enumerate(rates) if r[2:] == [1.0, 1.0]]
+    for i in sub:       # the heavier sub-block first, one forecast A per case (load balance)
+        yield dict(kind='block', shape=[2, 2], alpha=ALPHA3, a_idx=[i], b_idx=sub, max_events=(3 if tier == 'quick' else 4), variants='alpha-scale')
     for chunk in space.chunks(list(range(len(rates))), 1):
         yield dict(kind='block', shape=[2, 2], alpha=ALPHA3, a_idx=chunk, max_events=(3 if tier == 'quick' else 4), variants='main')
-    sub = [i for i, r in enumerate(rates) if r[2:] == [1.0, 1.0]]
-    yield dict(kind='block', shape=[2, 2], alpha=ALPHA3, a_idx=sub, b_idx=sub, max_events=4, variants='alpha-scale')
     if tier == 'thorough':
         r2 = all_rates([1e-3, 0.25, 1.0, 4.0, 10.0], 2)
         for chunk in space.chunks(list(range(len(r2))), 5):
@@ -145,7 +146,7 @@ def run_case(case):
         b_idx = case.get('b_idx') or list(range(len(rates)))
         pairs = [(rates[i], rates[j]) for i in a_idx for j in b_idx if i <= j]
         catalogs = [list(c) for c in space.multisets(list(range(n)), case.get('min_events', 2), case['max_events'])]
-        variants = [(0.05, False)] if case['variants'] == 'main' else [(0.01, False), (0.5, False), (0.05, True), (0.01, True)]
+        variants = [(0.05, False)] if case['variants'] == 'main' else [(0.01, False), (0.5, False), (0.05, True), (0.01, True), (0.05, 'rescaled')]
     def fc_of(r, name):
         # a FRESH forecast object per state: the calls of one state (T(A,B), T(B,A), binary T both orders, W both orders)
         # form an explicit history on the same two objects, so a call that corrupts a forecast is seen by the next one,
@@ -159,90 +160,106 @@ def run_case(case):
                 counts = [cat_bins.count(k) for k in range(n)]
                 cats[key] = fixtures.catalog(fixtures.events_from_counts(numpy.array(counts).reshape(nc, nm), origins, mags), region=reg)
             for alpha, scale in variants:
-                fa, fb = fc_of(ra, 'A'), fc_of(rb, 'B')
-                states += 1
-                div = 10.0 if scale else 1.0
-                na, nb = math.fsum(ra) / div, math.fsum(rb) / div
-                xa = [ra[k] / div for k in cat_bins]
-                xb = [rb[k] / div for k in cat_bins]
-                rep = dict(kind='single', shape=case['shape'], alpha=case['alpha'], a=ra, b=rb, catalog=list(cat_bins),
-                           alpha_level=alpha, scale=scale)
-                if len(set(cat_bins)) < len(cat_bins) or na != nb:
-                    nontriv += 1
-                # ---- paired T and binary T, both orders
-                active = sorted(set(cat_bins))
-                for site, fn, A, B in (('poisson_evaluations.paired_t_test', pe.paired_t_test, (xa, xb), None),
-                                       ('binomial_evaluations.binary_paired_t_test', be.binary_paired_t_test,
-                                        ([ra[k] for k in active], [rb[k] for k in active]), None)):
-                    cat = cats[key]
-                    try:
-                        r1 = fn(fa, fb, cat, alpha=alpha, scale=scale)
-                        r2 = fn(fb, fa, cat, alpha=alpha, scale=scale)
-                    except Exception as e:
-                        failures.append(Fail(f'{site}|{type(e).__name__}|any', f'{type(e).__name__}: {e} A={ra} B={rb} catalog bins={cat_bins}', rep))
-                        continue
-                    evals += 2
-                    ref = ref_ttest(A[0], A[1], na, nb, alpha)
-                    g1, g2 = float(r1.observed_statistic), float(r2.observed_statistic)
-                    hsh.update(repr((site, g1, fixtures.norm(r1.quantile), fixtures.norm(r1.test_distribution))).encode())
-                    if not close(g1, ref['gain']):
-                        failures.append(Fail(f'{site}|information-gain-differs-from-eq17|any',
-                                             f'gain {g1!r}, reference {ref["gain"]!r} (A={ra} B={rb} bins={cat_bins} scale={scale})', rep))
-                        continue
-                    if not close(g2, -g1, atol=1e-12):
-                        failures.append(Fail(f'{site}|swap-does-not-negate-gain|any', f'{g1!r} vs swapped {g2!r} (A={ra} B={rb} bins={cat_bins})', rep))
-                    if ra == rb and g1 != 0.0:
-                        failures.append(Fail(f'{site}|self-comparison-gain-not-zero|any', f'gain {g1!r} for A=B={ra}', rep))
-                    if ref['t'] is None:
-                        counters['degenerate_variance_not_judged'] += 1
-                        continue
-                    t1, tc1 = (float(x) for x in r1.quantile)
-                    lo1, hi1 = (float(x) for x in r1.test_distribution)
-                    t2, tc2 = (float(x) for x in r2.quantile)
-                    lo2, hi2 = (float(x) for x in r2.test_distribution)
-                    if not (close(t1, ref['t'], rtol=1e-7) and close(tc1, ref['tcrit']) and close(lo1, ref['lo'], rtol=1e-7, atol=1e-10)
-                            and close(hi1, ref['hi'], rtol=1e-7, atol=1e-10)):
-                        failures.append(Fail(f'{site}|t-statistic-or-interval-differs-from-eq18|any',
-                                             f'(t, tcrit, lo, hi) = {(t1, tc1, lo1, hi1)}, reference {(ref["t"], ref["tcrit"], ref["lo"], ref["hi"])} '
-                                             f'(A={ra} B={rb} bins={cat_bins} alpha={alpha} scale={scale})', rep))
-                        continue
-                    if not (close(t2, -t1, rtol=1e-9) and close(lo2, -hi1, atol=1e-10) and close(hi2, -lo1, atol=1e-10) and close(tc1, tc2)):
-                        failures.append(Fail(f'{site}|swap-does-not-mirror-statistic-and-interval|any',
-                                             f'{(t1, lo1, hi1)} vs swapped {(t2, lo2, hi2)} (A={ra} B={rb} bins={cat_bins})', rep))
-                # ---- W test
-                if alpha == 0.05:
-                    site = 'poisson_evaluations.w_test'
-                    X = [math.log(a) - math.log(b) for a, b in zip(xa, xb)]
-                    m = (math.fsum(ra) - math.fsum(rb)) / len(cat_bins)       # w_test uses the unscaled totals
-                    ref = ref_wilcoxon(X, m)
-                    # the same differences as the library forms them (vector log): ties by exact float equality
-                    Xnp = (numpy.log(numpy.array(xa)) - numpy.log(numpy.array(xb))).tolist()
-                    ref_exact = ref_wilcoxon(Xnp, (float(numpy.sum(numpy.array(ra).reshape(nc, nm))) - float(numpy.sum(numpy.array(rb).reshape(nc, nm)))) / len(cat_bins), tie_tol=0.0)
-                    if ref is None:
-                        counters['w_all_zero_excluded'] += 1
-                        continue
-                    try:
-                        w1 = pe.w_test(fa, fb, cats[key], scale=scale)
-                        w2 = pe.w_test(fb, fa, cats[key], scale=scale)
-                    except Exception as e:
-                        failures.append(Fail(f'{site}|{type(e).__name__}|any', f'{type(e).__name__}: {e} A={ra} B={rb} bins={cat_bins}', rep))
-                        continue
-                    evals += 2
-                    z1, p1 = float(w1.observed_statistic), float(w1.quantile)
-                    z2, p2 = float(w2.observed_statistic), float(w2.quantile)
-                    hsh.update(repr((z1, p1)).encode())
-                    ok_tol = close(z1, ref['z'], rtol=1e-9) and close(p1, ref['p'], rtol=1e-9)
-                    ok_exact = ref_exact is not None and ref_exact['z'] is not None and close(z1, ref_exact['z'], rtol=1e-9) and close(p1, ref_exact['p'], rtol=1e-9)
-                    if ok_exact and not ok_tol:
-                        counters['w_ambiguous_ties_not_judged'] += 1     # ties decided by 1-ulp noise of log(): either reading accepted
-                    if not (ok_tol or ok_exact):
-                        failures.append(Fail(f'{site}|z-or-p-differs-from-signed-rank-definition|any',
-                                             f'(z,p)={(z1, p1)} reference {(ref["z"], ref["p"])} (A={ra} B={rb} bins={cat_bins})', rep))
-                        continue
-                    if not (0.0 <= p1 <= 1.0):
-                        failures.append(Fail(f'{site}|p-outside-unit-interval|any', f'p={p1}', rep))
-                    if not (close(z1, z2) and close(p1, p2)):
-                        failures.append(Fail(f'{site}|not-invariant-under-swap|any', f'{(z1, p1)} vs swapped {(z2, p2)} (A={ra} B={rb} bins={cat_bins})', rep))
+                ra0, rb0 = ra, rb
+                try:
+                    fa, fb = fc_of(ra, 'A'), fc_of(rb, 'B')
+                    states += 1
+                    rescaled = (scale == 'rescaled')
+                    if rescaled:
+                        # history: both forecasts are used once (their totals are read), then rescaled by 1/2, then used again
+                        scale = False
+                        try:
+                            pe.w_test(fa, fb, cats[key] if key in cats else fixtures.catalog(fixtures.events_from_counts(numpy.array([cat_bins.count(k) for k in range(n)]).reshape(nc, nm), origins, mags), region=reg))
+                            _ = fa.event_count, fb.event_count, fa.sum(), fb.sum()
+                        except Exception:
+                            pass
+                        fa.scale(0.5)
+                        fb.scale(0.5)
+                        ra, rb = [x * 0.5 for x in ra], [x * 0.5 for x in rb]
+                    div = 10.0 if scale else 1.0
+                    na, nb = math.fsum(ra) / div, math.fsum(rb) / div
+                    xa = [ra[k] / div for k in cat_bins]
+                    xb = [rb[k] / div for k in cat_bins]
+                    rep = dict(kind='single', shape=case['shape'], alpha=case['alpha'], a=ra, b=rb, catalog=list(cat_bins),
+                               alpha_level=alpha, scale=scale)
+                    if len(set(cat_bins)) < len(cat_bins) or na != nb:
+                        nontriv += 1
+                    # ---- paired T and binary T, both orders
+                    active = sorted(set(cat_bins))
+                    for site, fn, A, B in (('poisson_evaluations.paired_t_test', pe.paired_t_test, (xa, xb), None),
+                                           ('binomial_evaluations.binary_paired_t_test', be.binary_paired_t_test,
+                                            ([ra[k] for k in active], [rb[k] for k in active]), None)):
+                        cat = cats[key]
+                        try:
+                            r1 = fn(fa, fb, cat, alpha=alpha, scale=scale)
+                            r2 = fn(fb, fa, cat, alpha=alpha, scale=scale)
+                        except Exception as e:
+                            failures.append(Fail(f'{site}|{type(e).__name__}|any', f'{type(e).__name__}: {e} A={ra} B={rb} catalog bins={cat_bins}', rep))
+                            continue
+                        evals += 2
+                        ref = ref_ttest(A[0], A[1], na, nb, alpha)
+                        g1, g2 = float(r1.observed_statistic), float(r2.observed_statistic)
+                        hsh.update(repr((site, g1, fixtures.norm(r1.quantile), fixtures.norm(r1.test_distribution))).encode())
+                        if not close(g1, ref['gain']):
+                            failures.append(Fail(f'{site}|information-gain-differs-from-eq17|any',
+                                                 f'gain {g1!r}, reference {ref["gain"]!r} (A={ra} B={rb} bins={cat_bins} scale={scale})', rep))
+                            continue
+                        if not close(g2, -g1, atol=1e-12):
+                            failures.append(Fail(f'{site}|swap-does-not-negate-gain|any', f'{g1!r} vs swapped {g2!r} (A={ra} B={rb} bins={cat_bins})', rep))
+                        if ra == rb and g1 != 0.0:
+                            failures.append(Fail(f'{site}|self-comparison-gain-not-zero|any', f'gain {g1!r} for A=B={ra}', rep))
+                        if ref['t'] is None:
+                            counters['degenerate_variance_not_judged'] += 1
+                            continue
+                        t1, tc1 = (float(x) for x in r1.quantile)
+                        lo1, hi1 = (float(x) for x in r1.test_distribution)
+                        t2, tc2 = (float(x) for x in r2.quantile)
+                        lo2, hi2 = (float(x) for x in r2.test_distribution)
+                        if not (close(t1, ref['t'], rtol=1e-7) and close(tc1, ref['tcrit']) and close(lo1, ref['lo'], rtol=1e-7, atol=1e-10)
+                                and close(hi1, ref['hi'], rtol=1e-7, atol=1e-10)):
+                            failures.append(Fail(f'{site}|t-statistic-or-interval-differs-from-eq18|any',
+                                                 f'(t, tcrit, lo, hi) = {(t1, tc1, lo1, hi1)}, reference {(ref["t"], ref["tcrit"], ref["lo"], ref["hi"])} '
+                                                 f'(A={ra} B={rb} bins={cat_bins} alpha={alpha} scale={scale})', rep))
+                            continue
+                        if not (close(t2, -t1, rtol=1e-9) and close(lo2, -hi1, atol=1e-10) and close(hi2, -lo1, atol=1e-10) and close(tc1, tc2)):
+                            failures.append(Fail(f'{site}|swap-does-not-mirror-statistic-and-interval|any',
+                                                 f'{(t1, lo1, hi1)} vs swapped {(t2, lo2, hi2)} (A={ra} B={rb} bins={cat_bins})', rep))
+                    # ---- W test
+                    if alpha == 0.05:
+                        site = 'poisson_evaluations.w_test'
+                        X = [math.log(a) - math.log(b) for a, b in zip(xa, xb)]
+                        m = (math.fsum(ra) - math.fsum(rb)) / len(cat_bins)       # w_test uses the unscaled totals
+                        ref = ref_wilcoxon(X, m)
+                        # the same differences as the library forms them (vector log): ties by exact float equality
+                        Xnp = (numpy.log(numpy.array(xa)) - numpy.log(numpy.array(xb))).tolist()
+                        ref_exact = ref_wilcoxon(Xnp, (float(numpy.sum(numpy.array(ra).reshape(nc, nm))) - float(numpy.sum(numpy.array(rb).reshape(nc, nm)))) / len(cat_bins), tie_tol=0.0)
+                        if ref is None:
+                            counters['w_all_zero_excluded'] += 1
+                            continue
+                        try:
+                            w1 = pe.w_test(fa, fb, cats[key], scale=scale)
+                            w2 = pe.w_test(fb, fa, cats[key], scale=scale)
+                        except Exception as e:
+                            failures.append(Fail(f'{site}|{type(e).__name__}|any', f'{type(e).__name__}: {e} A={ra} B={rb} bins={cat_bins}', rep))
+                            continue
+                        evals += 2
+                        z1, p1 = float(w1.observed_statistic), float(w1.quantile)
+                        z2, p2 = float(w2.observed_statistic), float(w2.quantile)
+                        hsh.update(repr((z1, p1)).encode())
+                        ok_tol = close(z1, ref['z'], rtol=1e-9) and close(p1, ref['p'], rtol=1e-9)
+                        ok_exact = ref_exact is not None and ref_exact['z'] is not None and close(z1, ref_exact['z'], rtol=1e-9) and close(p1, ref_exact['p'], rtol=1e-9)
+                        if ok_exact and not ok_tol:
+                            counters['w_ambiguous_ties_not_judged'] += 1     # ties decided by 1-ulp noise of log(): either reading accepted
+                        if not (ok_tol or ok_exact):
+                            failures.append(Fail(f'{site}|z-or-p-differs-from-signed-rank-definition|any',
+                                                 f'(z,p)={(z1, p1)} reference {(ref["z"], ref["p"])} (A={ra} B={rb} bins={cat_bins})', rep))
+                            continue
+                        if not (0.0 <= p1 <= 1.0):
+                            failures.append(Fail(f'{site}|p-outside-unit-interval|any', f'p={p1}', rep))
+                        if not (close(z1, z2) and close(p1, p2)):
+                            failures.append(Fail(f'{site}|not-invariant-under-swap|any', f'{(z1, p1)} vs swapped {(z2, p2)} (A={ra} B={rb} bins={cat_bins})', rep))
+                finally:
+                    ra, rb = ra0, rb0
         if len(failures) > 60:
             break
     seen, uniq = set(), []
